@@ -51,7 +51,7 @@ pub fn formula(rng: &mut Rng) -> fol::Formula {
 
 pub fn theory(rng: &mut Rng) -> fol::Theory {
     let c = if rng.chance(3) { cfg_keywordish(rng) } else { cfg(rng) };
-    let n = rng.below(4);
+    let n = g::count(rng, 3);
     fol::Theory { formulas: (0..n).map(|_| { let d = 1 + rng.below(3); g::formula(rng, &c, d) }).collect() }
 }
 
@@ -74,7 +74,7 @@ pub fn annotated(rng: &mut Rng, c: &g::Cfg) -> fol::AnnotatedFormula {
 }
 pub fn specification(rng: &mut Rng) -> fol::Specification {
     let c = cfg(rng);
-    let n = rng.below(4);
+    let n = g::count(rng, 3);
     fol::Specification { formulas: (0..n).map(|_| annotated(rng, &c)).collect() }
 }
 pub fn sort(rng: &mut Rng) -> fol::Sort {
@@ -98,7 +98,7 @@ pub fn ug_entry(rng: &mut Rng, c: &g::Cfg) -> fol::UserGuideEntry {
 }
 pub fn user_guide(rng: &mut Rng) -> fol::UserGuide {
     let c = cfg(rng);
-    let n = rng.below(5);
+    let n = g::count(rng, 4);
     fol::UserGuide { entries: (0..n).map(|_| ug_entry(rng, &c)).collect() }
 }
 
@@ -107,19 +107,29 @@ pub fn user_guide(rng: &mut Rng) -> fol::UserGuide {
 /// separator between two tokens: mostly one blank, sometimes nothing (glues words to keywords),
 /// several blanks, a newline or a comment
 fn sep(rng: &mut Rng, out: &mut String) {
-    match rng.weighted(&[60, 18, 8, 6, 4, 2, 2]) {
+    match rng.weighted(&[60, 18, 8, 6, 4, 2, 2, 2]) {
         0 => out.push(' '),
         1 => {}
         2 => out.push_str("  "),
         3 => out.push('\n'),
         4 => out.push_str(" % c. (\n"),
         5 => out.push_str("\r\n"),
-        _ => out.push_str("%\n"),
+        6 => out.push_str("%\n"),
+        _ => exotic(rng, out),
     }
+}
+/// characters that are NOT layout for the grammar (`WHITESPACE = " " | NEWLINE`) although they look
+/// like it - form feed, vertical tab, tab, NBSP, BOM - and non-ASCII text, bare or inside a comment
+/// (where `ANY` accepts it); audit 2, B16 / T16
+pub const EXOTIC: &[&str] = &[
+    "\x0c", "\x0b", "\t", "\u{a0}", "\u{feff}", " %\x0c\u{e9}\u{3bb}\u{a0}\x0b\n", "\u{e9}", "\u{3bb}", "'", " % it's\n", "\u{2028}", "\x00",
+];
+pub fn exotic(rng: &mut Rng, out: &mut String) {
+    out.push_str(*rng.pick(EXOTIC));
 }
 /// separator that is never empty (between two word-like tokens when we want them apart)
 fn gap(rng: &mut Rng, out: &mut String) {
-    if rng.chance(85) { out.push(' ') } else { out.push_str(*rng.pick(&["\n", "  ", " %x\n", "\r"])) }
+    if rng.chance(85) { out.push(' ') } else { out.push_str(*rng.pick(&["\n", "  ", " %x\n", "\r", "\n", "  ", " %x\n", "\r", "\x0c", "\u{a0}", " %\u{e9}\n", "\x0b"])) }
 }
 /// either a real gap or (rarely) nothing
 fn wsep(rng: &mut Rng, out: &mut String) {
@@ -127,7 +137,7 @@ fn wsep(rng: &mut Rng, out: &mut String) {
 }
 
 fn f_var(rng: &mut Rng, out: &mut String) {
-    out.push_str(*rng.pick(&["X", "Y", "N", "_X", "X1", "Xy", "I"]));
+    out.push_str(*rng.pick(&["X", "Y", "N", "_X", "X1", "Xy", "I", "X", "Y", "N", "_X", "X1", "Xy", "I", "X'", "\u{c9}a"]));
     out.push_str(*rng.pick(&["", "", "", "$", "$i", "$i", "$integer", "$s", "$symbol", "$g", "$general", "$in", "$x"]));
 }
 fn f_numeral(rng: &mut Rng, out: &mut String) {
@@ -137,7 +147,7 @@ fn f_numeral(rng: &mut Rng, out: &mut String) {
     ]));
 }
 fn f_symbol(rng: &mut Rng, out: &mut String) {
-    out.push_str(*rng.pick(&["a", "b", "c", "not", "and", "forall", "nota", "_a", "aB", "or", "i", "p"]));
+    out.push_str(*rng.pick(&["a", "b", "c", "not", "and", "forall", "nota", "_a", "aB", "or", "i", "p", "a", "b", "c", "not", "and", "forall", "nota", "_a", "aB", "or", "i", "p", "a'", "\u{e9}"]));
 }
 fn f_iterm(rng: &mut Rng, out: &mut String, depth: usize) {
     if depth == 0 || rng.chance(45) {
@@ -296,8 +306,8 @@ pub fn fuzz_formula(rng: &mut Rng) -> String {
 }
 pub fn fuzz_theory(rng: &mut Rng) -> String {
     let mut s = String::new();
-    if rng.chance(15) { s.push_str(*rng.pick(&[" ", "\n", "% header\n", "%"])) }
-    let n = rng.below(4);
+    if rng.chance(15) { s.push_str(*rng.pick(&[" ", "\n", "% header\n", "%", "\u{feff}", "\u{feff}% bom\n", "% \u{e9}\u{a0}\n"])) }
+    let n = g::count(rng, 3);
     for _ in 0..n {
         let d = 1 + rng.below(3);
         f_formula(rng, &mut s, d);
@@ -329,8 +339,8 @@ fn f_annotated(rng: &mut Rng, s: &mut String) {
 }
 pub fn fuzz_spec(rng: &mut Rng) -> String {
     let mut s = String::new();
-    if rng.chance(10) { s.push_str("% spec\n ") }
-    let n = rng.below(4);
+    if rng.chance(10) { s.push_str(*rng.pick(&["% spec\n ", "% spec\n ", "\u{feff}", "% sp\u{e9}c\x0c\n"])) }
+    let n = g::count(rng, 3);
     for _ in 0..n {
         f_annotated(rng, &mut s);
         if !rng.chance(3) { s.push('.') }
@@ -340,7 +350,8 @@ pub fn fuzz_spec(rng: &mut Rng) -> String {
 }
 pub fn fuzz_ug(rng: &mut Rng) -> String {
     let mut s = String::new();
-    let n = rng.below(5);
+    if rng.chance(4) { s.push_str(*rng.pick(&["\u{feff}", "% ug \u{e9}\n", "\x0c"])) }
+    let n = g::count(rng, 4);
     for _ in 0..n {
         match rng.weighted(&[4, 3, 4, 3]) {
             0 | 1 => {
@@ -377,11 +388,16 @@ pub fn fuzz_ug(rng: &mut Rng) -> String {
 
 // ------------------------------------------------------------------ mutation
 
-const ALPHABET: &[u8] = b" ().,:-<>=!#$%_aXn01[]/+*p\n\tq";
+const ALPHABET: &[char] = &[
+    ' ', '(', ')', '.', ',', ':', '-', '<', '>', '=', '!', '#', '$', '%', '_', 'a', 'X', 'n', '0', '1', '[', ']', '/', '+', '*', 'p', '\n', '\t', 'q',
+    ' ', '(', ')', '.', ',', ':', '-', '<', '>', '=', '!', '#', '$', '%', '_', 'a', 'X', 'n', '0', '1', '[', ']', '/', '+', '*', 'p', '\n', '\t', 'q',
+    '\'', '\x0c', '\x0b', '\u{a0}', '\u{feff}', '\u{e9}', '\u{3bb}', '\r',
+];
 
-/// 1-3 random edits (delete, insert, replace, swap, duplicate) of an ASCII text
+/// 1-3 random edits (delete, insert, replace, swap, duplicate) of a text, character-wise; one edit in
+/// eight inserts a character outside the grammar's alphabet (`'`, FF, VT, NBSP, BOM, non-ASCII)
 pub fn mutate(rng: &mut Rng, text: &str) -> String {
-    let mut b: Vec<u8> = text.bytes().filter(|c| c.is_ascii()).collect();
+    let mut b: Vec<char> = text.chars().collect();
     let edits = 1 + rng.below(3);
     for _ in 0..edits {
         let n = b.len();
@@ -409,5 +425,5 @@ pub fn mutate(rng: &mut Rng, text: &str) -> String {
             _ => {}
         }
     }
-    String::from_utf8(b).unwrap_or_default()
+    b.into_iter().collect()
 }
